@@ -1,6 +1,7 @@
 package simrt
 
 import (
+	"context"
 	"fmt"
 	"os"
 	"runtime"
@@ -452,6 +453,44 @@ func AfterFunc(d time.Duration, f func()) *time.Timer {
 	t.bg = true
 	s.mu.Unlock()
 	return time.AfterFunc(d, func() {
+		runtime_setProfLabel(unsafe.Pointer(t))
+		s.post(t) // becomes runnable, parks until scheduled
+		s.mu.Lock()
+		ended := s.ended
+		s.mu.Unlock()
+		if ended {
+			return
+		}
+		if s.debugGoid {
+			t.goid = goid()
+		}
+		defer func() {
+			r := recover()
+			s.mu.Lock()
+			if r != nil {
+				t.Panicked, t.PanicVal = true, r
+			}
+			t.state = stDone
+			s.mu.Unlock()
+			close(t.doneCh)
+		}()
+		f()
+	})
+}
+
+// CtxAfterFunc is the instrumented context.AfterFunc: f runs as a (background) task once
+// ctx is done, unless stop was called first.
+func CtxAfterFunc(ctx context.Context, f func()) (stop func() bool) {
+	s := active()
+	if s == nil {
+		return context.AfterFunc(ctx, f)
+	}
+	s.mu.Lock()
+	t := s.newTask("CtxAfterFunc")
+	t.state = stTimer
+	t.bg = true
+	s.mu.Unlock()
+	return context.AfterFunc(ctx, func() {
 		runtime_setProfLabel(unsafe.Pointer(t))
 		s.post(t) // becomes runnable, parks until scheduled
 		s.mu.Lock()
